@@ -287,15 +287,27 @@ class World:
             return False
         return p[:len(prefix)] == list(prefix)
 
-    def handle_effects(self, h, name, args, lib_res, before_len=None):
+    def handle_effects(self, h, name, args, lib_res, before_len=None, old_model=None):
         """Effects of an op executed through handle h on the other handles of the SAME root object."""
         p = h.path
         mine = [x for x in self.handles_of(h.oid) if x is not h and x.state == "attached"]
+        shared = {}      # removed position -> ONE detached plain copy shared by every handle into that removed value
 
         def mark(pred, state):
             for x in mine:
                 if pred(x):
                     x.state = state
+                    if state == "removed":
+                        # the removed value lives on as an ordinary detached object: reads through a retained handle show it
+                        # (plus whatever was done to it since), writes change it and nothing else (C03/C16)
+                        cut = len(p) + 1
+                        key = tuple(map(repr, x.path[:cut]))
+                        if old_model is not None and has_path(old_model, x.path[:cut]):
+                            if key not in shared:
+                                shared[key] = [deep(get_path(old_model, x.path[:cut]))]
+                            x.detached, x.dpath = shared[key], list(x.path[cut:])
+                        else:
+                            x.detached = None
         if h.kind == "dict":
             if name == "setitem":
                 mark(lambda x: self._under(x, p + [args[0]], strict=False), "dropped")
@@ -615,7 +627,7 @@ class World:
         r = self.res[ob.rid]
         name, attr = st["name"], st.get("attr", False)
         mut = M.is_mutator(h.kind, name)
-        if h.state == "removed" and not mut:
+        if h.state == "removed" and not mut and getattr(h, "detached", None) is None:
             raise Skip()
         if getattr(r, "corrupt", False) and "corrupt_ok" not in self.cfg:
             raise Skip()
@@ -627,6 +639,7 @@ class World:
         buffered = self.is_buffered(ob) if hasattr(ob.o, "buffered") else False
 
         # ---- model side (on a copy first: the model is only committed if the library also succeeds) -----
+        dcopy = None
         if h.state == "attached":
             if not has_path(r.model, h.path):
                 raise Skip()
@@ -636,9 +649,20 @@ class World:
                 raise Skip()
             before_len = len(target)
             mres = M.model_apply(target, name, margs)
+        elif h.state == "removed" and getattr(h, "detached", None) is not None:
+            # the detached model of a removed value (a one-element list so that all handles into it share it)
+            dcopy = deep(h.detached[0])
+            if not has_path(dcopy, h.dpath) or kind_of(get_path(dcopy, h.dpath)) != h.kind:
+                raise Skip()
+            trial, target = None, get_path(dcopy, h.dpath)
+            before_len = len(target)
+            mres = M.model_apply(target, name, margs)
+            if name == "popitem" and not isinstance(mres, M.Raised):
+                raise Skip()
         else:
             trial, target, before_len = None, None, 0
             mres = None
+            dcopy = None
 
         if attr and isinstance(mres, M.Raised) and mres.cls is KeyError and name == "getitem":
             mres = M.Raised(AttributeError(str(mres.exc)))  # attribute syntax: missing key -> AttributeError (C18)
@@ -664,7 +688,22 @@ class World:
             self.stat("ops_nested")
 
         if h.state == "removed":
-            # C16: mutating a removed value changes nothing (model untouched)
+            # C16: mutating a removed value changes nothing in the collection or the backend (model untouched); the removed
+            # value itself behaves like the plain detached object it now is (C03)
+            if getattr(h, "detached", None) is not None and dcopy is not None and ("result" in self.oracles or ("read_result" in self.oracles and not mut)):
+                msg = M.results_agree(name, h.kind, lres, mres)
+                if msg is not None:
+                    raise Violation("result!=model", f"{name}{jsonable(st.get('args', []))} on a value that was removed from the collection "
+                                    f"earlier (retained {h.kind} handle, originally at {h.path}): {msg}", step=st)
+                self.probe("removed_value_used")
+            if getattr(h, "detached", None) is not None and mut and dcopy is not None and not isinstance(mres, M.Raised) and not isinstance(lres, M.Raised):
+                h.detached[0] = dcopy
+                # positions inside the removed value that this op removed / reassigned are simply no longer used
+                for x in self.handles_of(h.oid):
+                    if x is not h and x.state == "removed" and getattr(x, "detached", None) is h.detached and len(x.dpath) > len(h.dpath) and x.dpath[:len(h.dpath)] == h.dpath:
+                        x.state = "dropped"
+            elif getattr(h, "detached", None) is not None and mut and dcopy is not None and (isinstance(mres, M.Raised) != isinstance(lres, M.Raised)):
+                h.detached = None      # outcome kinds differ and no result oracle spoke: stop modelling this value
             self.post_op(r, ob, h, name, mut, buffered, pre, changed=False, lres=lres)
             return
 
@@ -692,9 +731,10 @@ class World:
         changed = False
         if mut and not lib_raised and not mod_raised:
             changed = not same(trial, r.model)
+            old_model = r.model
             r.model = trial
             r.exists = True
-            self.handle_effects(h, name, args, lres_raw, before_len)
+            self.handle_effects(h, name, args, lres_raw, before_len, old_model=old_model)
             self.revalidate(r.rid)
         elif mut and (lib_raised != mod_raised):
             # outcome kinds differ and the result oracle is off: follow the library (if it raised, nothing changed)
